@@ -112,6 +112,16 @@ func TestC13(t *testing.T) {
 			pos := rapid.IntRange(0, nops-1).Draw(t, "poisonOp")
 			keys := []string{fmt.Sprintf("c%d-r0", ci), "poison-key", fmt.Sprintf("c%d-r1", ci)}
 			quiets := []bool{rapid.Bool().Draw(t, "pq0"), rapid.Bool().Draw(t, "pq1"), false}
+			if rapid.IntRange(0, 2).Draw(t, "poisonLong") == 0 {
+				// a get of hundreds of keys (more replies owed to one call than fit a byte),
+				// the key that can never be answered in front
+				n := rapid.SampledFrom([]int{256, 257, 300, 512}).Draw(t, "poisonLongKeys")
+				keys, quiets = []string{"poison-key"}, []bool{true}
+				for j := 1; j < n; j++ {
+					keys = append(keys, fmt.Sprintf("c%d-r%d", ci, j%4))
+					quiets = append(quiets, j < n-1)
+				}
+			}
 			plans[ci][pos] = c13Op{Kind: "get", Keys: keys, Quiets: quiets}
 		}
 		total := callers * nops
